@@ -324,7 +324,15 @@ func c14ExprReturns(c *Ctx, te, f *ssa.Function, depth int, visited map[*ssa.Fun
 		}
 		rv := retVals(ret)
 		var dc *ssa.Call
-		if e, ok := rv[0].(*ssa.Extract); ok && e.Index == 0 {
+		// a helper may return the concrete node type (*ExprAnd): the conversion to the interface is then a wrapper around
+		// the helper's result — and turns a nil pointer into a non-nil interface, so the nil tests of the callers are blind
+		v0 := rv[0]
+		if mi, isMI := v0.(*ssa.MakeInterface); isMI {
+			if _, isPtr := mi.X.Type().Underlying().(*types.Pointer); isPtr {
+				v0 = mi.X
+			}
+		}
+		if e, ok := v0.(*ssa.Extract); ok && e.Index == 0 {
 			if call, ok := e.Tuple.(*ssa.Call); ok {
 				if h := calleeFunc(&call.Call); h != nil && c.w.inModule(h) && h.Blocks != nil {
 					dc = call
@@ -369,6 +377,10 @@ func c14ExprReturns(c *Ctx, te, f *ssa.Function, depth int, visited map[*ssa.Fun
 			if _, isAlloc := peel(mi.X).(*ssa.Alloc); isAlloc {
 				ok = true
 			}
+		}
+		// a helper with a concrete pointer result returns the allocation itself
+		if _, isAlloc := peel(rv[0]).(*ssa.Alloc); isAlloc && f != te {
+			ok = true
 		}
 		c.r.check(ok, rule, key(), "returns a freshly allocated expression node", bad, c.w.ipos(i))
 	})
